@@ -274,6 +274,7 @@ def replay(rp):
 
 def run(ck):
     ck.proof_side()
+    ck.cov['further_clauses'] = 'block of sloped monopoles ending on a perfect ground; 50 (250) inverted Vs of tapered legs'
     rng = ck.rng
     _DRV[0] = ck.get_driver()
     n = 36 if ck.tier == 'quick' else 700
